@@ -81,5 +81,5 @@ func TestSmokeF(t *testing.T) {
 	}
 	pch, _ := c.CApp.ConsumerKeeper.GetProviderChannel(c.Ctx())
 	t.Logf("consumer provider channel=%q packets p2c=%d c2p=%d elapsed=%v", pch, len(w.F().Paths["0"].P2C), len(w.F().Paths["0"].C2P), time.Since(start))
-	fmt.Sprint()
+	_ = fmt.Sprint()
 }
